@@ -1,7 +1,7 @@
 package zz_verifsim
 
 import (
-	"bytes"
+	"strings"
 	"crypto/ecdsa"
 	"crypto/ed25519"
 	"crypto/sha256"
@@ -100,7 +100,27 @@ func sameQC(a, b hotstuff.QuorumCert) bool {
 	if a.Signature() == nil {
 		return true
 	}
-	return bytes.Equal(a.Signature().ToBytes(), b.Signature().ToBytes()) && fmt.Sprint(participantsOf(a.Signature())) == fmt.Sprint(participantsOf(b.Signature()))
+	return sigIdentity(a.Signature()) == sigIdentity(b.Signature())
+}
+
+// sigIdentity spells out everything that tells two signature objects apart: the scheme's type, the signers, and the
+// bytes of each part (for a multi-signature entry by entry: the same bytes divided differently are another object).
+func sigIdentity(sig hotstuff.QuorumSignature) string {
+	var sb strings.Builder
+	fmt.Fprintf(&sb, "%T|%v|", sig, participantsOf(sig))
+	switch s := sig.(type) {
+	case crypto.Multi[*crypto.EDDSASignature]:
+		for _, e := range s {
+			fmt.Fprintf(&sb, "%d:%x;", e.Signer(), e.ToBytes())
+		}
+	case crypto.Multi[*crypto.ECDSASignature]:
+		for _, e := range s {
+			fmt.Fprintf(&sb, "%d:%x;", e.Signer(), e.ToBytes())
+		}
+	default:
+		fmt.Fprintf(&sb, "%x", sig.ToBytes())
+	}
+	return sb.String()
 }
 
 var blsPopDomain = []byte("BLS_POP_BLS12381G2_XMD:SHA-256_SSWU_RO_POP_") // the standard proof-of-possession tag
